@@ -165,17 +165,24 @@ theorem okC_w (w : World) (s : Store.Store) (hc : w.cifs = [some s]) (hi : w.its
   rfl
 
 theorem okH_w (w : World) (s : Store.Store) (hc : w.cifs = [some s]) (hi : w.its = []) (h : Nat) (e : CHE)
-    (he : w.chs.getD h none = some e) (h0 : e.cif = 0) (hv : s.db.hasContainer e.h.id = true) : Store.okH w h = true := by
+    (he : w.chs.getD h none = some e) (h0 : e.cif = 0) (hv : s.db.hasContainer e.h.id = true ∧ s.db.inCif e.h.id = true) :
+    Store.okH w h = true := by
   unfold Store.okH
-  simp only [liveH_w w s hc h e he h0, busy_false w hi, Store.CH.validB, hv]
+  simp only [liveH_w w s hc h e he h0, busy_false w hi, Store.CH.okB, Store.CH.validB, hv.1, hv.2]
   rfl
 
 theorem hasContainer_of (o : Opts) (s : Store.Store) (hi : AInv o (absS s.db)) (b : BlockRow) (hb : b ∈ (absS s.db).blocks) :
-    s.db.hasContainer b.cid = true := by
+    s.db.hasContainer b.cid = true ∧ s.db.inCif b.cid = true := by
   obtain ⟨c, hc, e⟩ := hi.blkCont b hb
-  unfold Store.Db.hasContainer
-  rw [List.any_eq_true]
-  exact ⟨c, hc, by simp [e]⟩
+  have h1 : s.db.hasContainer b.cid = true := by
+    unfold Store.Db.hasContainer
+    rw [List.any_eq_true]
+    exact ⟨c, hc, by simp [e]⟩
+  refine ⟨h1, ?_⟩
+  unfold Store.Db.inCif
+  rw [h1, Bool.true_and, Store.Db.upB]
+  have : s.db.blocks.any (fun x => x.cid == b.cid) = true := List.any_eq_true.mpr ⟨b, hb, by simp⟩
+  simp [this]
 
 /-- the step of the store model from the step of the documented model -/
 theorem transfer (w : World) (s : Store.Store) (sop : Store.Op) (A' : AState) (chs' : List (Option CHE)) (lhs' : List (Option LHE))
@@ -382,8 +389,10 @@ theorem rep_addPkt (o : Opts) (m : HMap) (w : World) (s : Store.Store) (last : O
     show (Store.okL w l && Store.keysDistinct ((names.map o.norm).zip vals)) = true
     rw [keysDistinct_zip _ _ hnd, Bool.and_true]
     unfold Store.okL
-    simp only [liveL_w w s hr.cifs l e che he h0 hch hcc, busy_false w hr.its,
-      validB_of_open o s hr.inv b.cid e.h.loopNum names hopen e.h hcid rfl hcat]
+    have hic := (hasContainer_of o s hr.inv b hb.1).2
+    rw [← hcid] at hic
+    simp only [liveL_w w s hr.cifs l e che he h0 hch hcc, busy_false w hr.its, Store.LH.okB,
+      validB_of_open o s hr.inv b.cid e.h.loopNum names hopen e.h hcid rfl hcat, hic]
     rfl
   have hst := specStep_addPkt_aw (absS s.db) _ w.chs w.lhs l e che _ he h0 hch hcc hspec
   obtain ⟨hres, hwok', s', hc', hA, hchs', hlhs', hits'⟩ := transfer w s sop _ _ _ _ hr.cifs hr.its hr.wok hin hst
